@@ -72,3 +72,18 @@ func (h *Handler) VerifCursors() (net1, net2 netip.Addr) {
 // VerifResetStorm re-arms the process wide rate limiter of the DISCOVER storm (client.go: nextAttack)
 // so that the next DISCOVER handled by any handler triggers the storm again.
 func VerifResetStorm() { nextAttack = time.Now().Add(-time.Second) }
+
+// VerifAgeOffers moves OfferExpiry and DHCPExpiry of every lease back by d (under the handler lock):
+// the harness' way to let a quiet period pass without waiting for the wall clock.
+func (h *Handler) VerifAgeOffers(d time.Duration) {
+	h.Lock()
+	defer h.Unlock()
+	for _, l := range h.table {
+		if !l.OfferExpiry.IsZero() {
+			l.OfferExpiry = l.OfferExpiry.Add(-d)
+		}
+		if !l.DHCPExpiry.IsZero() {
+			l.DHCPExpiry = l.DHCPExpiry.Add(-d)
+		}
+	}
+}
